@@ -68,7 +68,7 @@ def st_case(draw, tier):
         sp = "occ" if d in ALPHABET["occ"] else "virt"
         nm = perm[sp].pop()
         if numbered:
-            nm += str(draw(st.sampled_from([1, 2, 5, 11])))
+            nm += str(draw(st.sampled_from([1, 2])))
         idx.append(nm)
     clause = draw(st.sampled_from(["value", "value", "symmetry", "spin"]))
     return {"name": name, "idx": idx, "fully": draw(st.booleans()),
